@@ -203,6 +203,20 @@ func (e *env) prototypes(c *config.Configuration) {
 		"authentication_data_source": []any{map[string]any{"header": "X-Session"}},
 		"forward_headers":            []string{"X-Tenant"}, "forward_cookies": []string{"trk"},
 		"subject": map[string]any{"id": "sub"}, "cache_ttl": longTTL})
+	// two mechanisms on the same endpoint URL which differ only in the VALUE of an endpoint header whose NAME is
+	// spelled non-canonically (lower case, as usual in YAML): their results must never be shared
+	for _, tn := range []string{"a", "b"} {
+		addAuthn("ga-ten-"+tn, "generic", map[string]any{
+			"identity_info_endpoint":     map[string]any{"url": S + "/identity", "method": "GET", "headers": map[string]any{"X-Credential": "{{ .AuthenticationData }}", "x-tenant": "tenant-" + tn}},
+			"authentication_data_source": []any{map[string]any{"header": "X-Session"}},
+			"subject":                    map[string]any{"id": "sub"}, "cache_ttl": longTTL})
+		addAuthz("ra-low-"+tn, map[string]any{
+			"endpoint": map[string]any{"url": S + "/authz", "headers": map[string]any{"x-api-tenant": "tenant-" + tn}},
+			"payload":  `{"fixed": true}`, "forward_response_headers_to_upstream": []string{"X-Authz-Echo"}, "cache_ttl": longTTL})
+		addCtx("cx-low-"+tn, map[string]any{
+			"endpoint": map[string]any{"url": S + "/ctx", "headers": map[string]any{"x-api-tenant": "tenant-" + tn}},
+			"payload":  `{"fixed": true}`, "cache_ttl": longTTL})
+	}
 	addAuthn("ga-payload", "generic", map[string]any{
 		"identity_info_endpoint":     map[string]any{"url": S + "/identity", "method": "POST", "headers": map[string]any{"Content-Type": "application/json"}},
 		"payload":                    `{"cred": {{ quote .AuthenticationData }} }`,
@@ -338,6 +352,12 @@ func (e *env) pairs() {
 		add("generic_authenticator", "credential", one, ga(c1, t1, "k"), ga(c2, t1, "k"))
 		add("generic_authenticator", "forwarded-header-value", one, ga(c1, t1, "k"), ga(c1, t2, "k"))
 		add("generic_authenticator", "forwarded-cookie-value", one, ga(c1, t1, "k1"+x), ga(c1, t1, "k2"+x))
+		gt := func(proto, cred string) mstep {
+			return mstep{Kind: "authn", Proto: proto, Step: ck.Step{Req: ck.Req{Headers: hdr("X-Session", cred)}}}
+		}
+		add("generic_authenticator", "endpoint-header-value-of-other-prototype", one, gt("ga-ten-a", c1), gt("ga-ten-b", c1))
+		add("remote_authorizer", "endpoint-header-value-of-other-prototype", one, raP("ra-low-a", ck.Step{Subject: sub(u1, r1)}, nil), raP("ra-low-b", ck.Step{Subject: sub(u1, r1)}, nil))
+		add("generic_contextualizer", "endpoint-header-value-of-other-prototype", one, cxP("cx-low-a", ck.Step{Subject: sub(u1, r1)}, nil), cxP("cx-low-b", ck.Step{Subject: sub(u1, r1)}, nil))
 		gp := func(cred string) mstep {
 			return mstep{Kind: "authn", Proto: "ga-payload", Step: ck.Step{Req: ck.Req{Cookies: hdr("app-session", cred)}}}
 		}
